@@ -36,6 +36,9 @@ Fixpoint descent_ok (p : segs) : bool :=
 Definition is_cmp (o : binop) : bool :=
   match o with BEq | BNe | BLt | BGt | BLe | BGe => true | _ => false end.
 
+(* `undefined` may be compared with, but is not a function argument *)
+Definition is_undefined (e : fexpr) : bool := match e with FUndefined => true | _ => false end.
+
 Section Typing.
   Variable ext : bool.        (* admit the documented extensions? *)
 
@@ -54,7 +57,8 @@ Section Typing.
     | FFunc name args =>
         (ustr_eqb name tname_match || ustr_eqb name tname_search) &&
         match args with
-        | ECons a (ECons b ENil) => wt_comparable a && wt_comparable b
+        | ECons a (ECons b ENil) =>
+            negb (is_undefined a) && wt_comparable a && (negb (is_undefined b) && wt_comparable b)
         | _ => false
         end
     | _ => false
@@ -68,7 +72,7 @@ Section Typing.
     | FCtx p => ext && singular p
     | FFunc name args =>
         if ustr_eqb name tname_length then
-          match args with ECons a ENil => wt_comparable a | _ => false end
+          match args with ECons a ENil => negb (is_undefined a) && wt_comparable a | _ => false end
         else if ustr_eqb name tname_count || ustr_eqb name tname_value then
           match args with ECons a ENil => wt_nodes a | _ => false end
         else false
@@ -90,7 +94,7 @@ Section Typing.
     | FNil | FBool _ | FInt _ | FFloat _ | FStr _ | FKey => true
     | FFunc name args =>
         if ustr_eqb name tname_length then
-          match args with ECons a ENil => wt_comparable a | _ => false end
+          match args with ECons a ENil => negb (is_undefined a) && wt_comparable a | _ => false end
         else if ustr_eqb name tname_count || ustr_eqb name tname_value then
           match args with ECons a ENil => wt_nodes a | _ => false end
         else false
@@ -112,8 +116,10 @@ Section Typing.
     match l with LNil => true | LCons s r => wt_sel s && wt_sels r end
   with wt_seg (g : segment) : bool :=
     match g with
-    | GSel (SSlice _ _ _) => false        (* a slice outside brackets is not RFC syntax *)
-    | GSel s => wt_sel s
+    | GSel (SName _) => true              (* .name  .*  and, with the extensions, .~ : the only *)
+    | GSel SWild => true                  (* selectors that stand alone at path level; no text *)
+    | GSel SKeys => ext                   (* denotes a bare index, slice or filter *)
+    | GSel _ => false
     | GDescent => true
     | GList LNil => false
     | GList items => wt_sels items
@@ -123,6 +129,9 @@ Section Typing.
     | PNil => true
     | PCons g r => wt_seg g && wt_segs r
     end.
+
+  (* a function argument of Value type: a comparable other than `undefined` *)
+  Definition wt_arg (e : fexpr) : bool := negb (is_undefined e) && wt_comparable e.
 
   Definition wt_path (p : jpath) : bool := (ext || negb (p_fake p)) && wt_segs (p_segs p) && descent_ok (p_segs p).
 End Typing.
